@@ -242,6 +242,10 @@ def run_case(idx, rng, tier, rep):
         if saturate and who == 'P' and not e_client and rng.random() < 0.5:
             return                      # keep slots occupied
         f = rng.choice(['live', 'live', 'rst_e', 'rst_p', 'end'])
+        if f == 'end' and saturate and e_client and v['fate'] == 'reserved' and v['by'] == 'P':
+            # the pushed response would take the stream from reserved to half-closed, which counts against E's own (saturated)
+            # MAX_CONCURRENT_STREAMS: the peer may not do that
+            f = 'rst_p'
         if f == 'live':
             return
         steps.append(('fate', sid, f))
